@@ -11,8 +11,8 @@
     by the Qc algebra of Proofs/KernelsLink.v.  There is no blind case split on a stuck match: a run that meets a
     primitive with no lemma stops there. *)
 From Coq Require Import Lia Bool.
-From TW Require Import Model.GlueLeaves2 Gen.MatchGlue Gen.UtilsGlue.
-From TW Require Import Proofs.ListLemmas Proofs.ListLemmas4 Proofs.ListLemmas7 Proofs.KernelsLink Proofs.GlueUtilsProofs.
+From TW Require Import Model.GlueLeaves2 Gen.MatchGlue.
+From TW Require Import Proofs.ListLemmas Proofs.ListLemmas4 Proofs.ListLemmas7 Proofs.KernelsLink Proofs.GlueFunLemmas.
 Open Scope Qc_scope.
 Open Scope string_scope.
 
@@ -190,12 +190,10 @@ Ltac gm_step :=
   end.
 Ltac gm_run := repeat (gm_red; gm_step); gm_red.
 
-(** the body and the formals of a function of match.py (for sorted_array_utils.py: [fn_enter]) *)
 Ltac km_enter f :=
   unfold call_fun;
   let b := eval vm_compute in (assoc f match_functions) in
   change (assoc f match_functions) with b.
-
 (** ---------------- C03: _integral_matching_stretch ---------------- *)
 (** as soon as the weight vector has been assigned it is recognised as the model's [weights] (either branch of the
     source's `if len(x) == 2`) and kept folded from there on *)
@@ -251,83 +249,4 @@ Lemma glue_stretch_kernel : forall pw x y target r, x <> [] -> length x = length
   = stretch_res pw r x y target.
 Proof. intros pw x y target r _. apply glue_stretch_kernel_gen. Qed.
 
-(** ---------------- C17: extend_constant, extend_linspace, oversample_piecewise_constant ---------------- *)
-(** n = 0 included: [a[0]] * 0 is the empty list, np.insert(a, 0, []) = a *)
-Lemma glue_extend_constant : forall a n d, a <> [] ->
-  outcome_arr (call_fun helper_callf helper_methf no_apply no_pow utils_functions "extend_constant"
-     [("a", VArr a); ("n", VInt (Z.of_nat n)); ("direction", VStrV (direction_name d))]) = Ok (extend_constant a n d).
-Proof.
-  intros a n d Ha. destruct d; fn_enter "extend_constant"; gm_run; reflexivity.
-Qed.
-
-(** the general form: [a] non-empty (a[0] / a[-1] are read), and n + 1 <= |a| only where a default mirror point
-    (a[n], a[-n-1]) is read; no lower bound on n *)
-Lemma glue_extend_linspace_gen : forall a n d lstart rstop, a <> [] ->
-  ((goes_left d = true /\ lstart = None) \/ (goes_right d = true /\ rstop = None) -> extend_linspace_defined a n = true) ->
-  outcome_arr (call_fun helper_callf helper_methf no_apply no_pow utils_functions "extend_linspace"
-     [("a", VArr a); ("n", VInt (Z.of_nat n)); ("direction", VStrV (direction_name d)); ("lstart", optQ lstart); ("rstop", optQ rstop)])
-  = Ok (extend_linspace a n d lstart rstop).
-Proof.
-  intros a n d lstart rstop Ha Hd.
-  assert (Hn : (goes_left d = true /\ lstart = None) \/ (goes_right d = true /\ rstop = None) -> (n + 1 <= length a)%nat).
-  { intros H. apply Nat.leb_le. exact (Hd H). }
-  clear Hd.
-  (* the bound that the direction does not use is never evaluated: it stays symbolic *)
-  destruct d; [destruct lstart as [ls|], rstop as [rs|] | destruct lstart as [ls|] | destruct rstop as [rs|]];
-    cbn [goes_left goes_right] in Hn;
-    try (assert (Hn' : (n + 1 <= length a)%nat) by (apply Hn; tauto)); clear Hn;
-    fn_enter "extend_linspace"; gm_run; rewrite ?QZ2; reflexivity.
-Qed.
-
-Lemma glue_extend_linspace : forall a n d lstart rstop, (1 <= n)%nat -> extend_linspace_defined a n = true ->
-  outcome_arr (call_fun helper_callf helper_methf no_apply no_pow utils_functions "extend_linspace"
-     [("a", VArr a); ("n", VInt (Z.of_nat n)); ("direction", VStrV (direction_name d)); ("lstart", optQ lstart); ("rstop", optQ rstop)])
-  = Ok (extend_linspace a n d lstart rstop).
-Proof.
-  intros a n d lstart rstop _ Hd. apply glue_extend_linspace_gen; [|intros _; exact Hd].
-  unfold extend_linspace_defined in Hd. apply Nat.leb_le in Hd. intros ->. cbn [length] in Hd. lia.
-Qed.
-
-(** holds for the empty array too *)
-Lemma glue_oversample_pc_gen : forall a num,
-  outcome_arr (call_fun helper_callf helper_methf no_apply no_pow utils_functions "oversample_piecewise_constant"
-     [("a", VArr a); ("num", VInt (Z.of_nat num))]) = Ok (oversample_pc a num).
-Proof.
-  intros a num. unfold oversample_pc. destruct (num <? 2)%nat eqn:E.
-  - fn_enter "oversample_piecewise_constant". gm_run. reflexivity.
-  - pose proof (proj1 (Nat.ltb_ge num 2) E) as E2.
-    fn_enter "oversample_piecewise_constant". gm_run.
-    rewrite oversample_pc_flat by lia. reflexivity.
-Qed.
-
-Lemma glue_oversample_pc : forall a num, a <> [] ->
-  outcome_arr (call_fun helper_callf helper_methf no_apply no_pow utils_functions "oversample_piecewise_constant"
-     [("a", VArr a); ("num", VInt (Z.of_nat num))]) = Ok (oversample_pc a num).
-Proof. intros a num _. apply glue_oversample_pc_gen. Qed.
-
-(** omitted arguments are bound to the defaults of the regenerated signature: the two calls run the same body in the
-    same environment *)
-Ltac same_env :=
-  cbv beta iota;
-  match goal with |- match ?p with _ => _ end = match ?q with _ => _ end =>
-    let p' := eval vm_compute in p in
-    let q' := eval vm_compute in q in
-    change p with p'; change q with q'
-  end.
-
-Lemma glue_extend_defaults : forall a n,
-  call_fun helper_callf helper_methf no_apply no_pow utils_functions "extend_constant" [("a", VArr a); ("n", VInt n)] =
-  call_fun helper_callf helper_methf no_apply no_pow utils_functions "extend_constant" [("a", VArr a); ("n", VInt n); ("direction", VStrV "both")] /\
-  call_fun helper_callf helper_methf no_apply no_pow utils_functions "extend_linspace" [("a", VArr a); ("n", VInt n)] =
-  call_fun helper_callf helper_methf no_apply no_pow utils_functions "extend_linspace" [("a", VArr a); ("n", VInt n); ("direction", VStrV "both"); ("lstart", VNoneV); ("rstop", VNoneV)].
-Proof.
-  intros a n. split.
-  - fn_enter "extend_constant". same_env. reflexivity.
-  - fn_enter "extend_linspace". same_env. reflexivity.
-Qed.
-
 Print Assumptions glue_stretch_kernel.
-Print Assumptions glue_extend_constant.
-Print Assumptions glue_extend_linspace.
-Print Assumptions glue_oversample_pc.
-Print Assumptions glue_extend_defaults.
